@@ -42,6 +42,8 @@ impl<'a> SocketRead<'a> {
 
             // clear the io_flag
             self.io_data.io_flag.store(0, Ordering::Relaxed);
+            #[cfg(may_verif)]
+            crate::verif::syscall();
 
             // finish the read operation
             match read(fd, self.buf) {
